@@ -1016,7 +1016,8 @@ impl<B: ScopedBitRead> Reader for UperReader<B> {
 
             if len > 0 {
                 r.scope_stashed(|r| {
-                    let mut vec = Vec::with_capacity(len as usize);
+                    // do not trust the transmitted length for the allocation
+                    let mut vec = Vec::with_capacity((len as usize).min(r.bits.remaining()));
                     for _ in 0..len {
                         vec.push(T::read_value(r)?);
                     }
@@ -1218,6 +1219,11 @@ impl<B: ScopedBitRead> Reader for UperReader<B> {
                 r.read_length_determinant(C::MIN, C::MAX)?
             };
 
+            // every character takes at least one bit, do not allocate for more than there is
+            if len > r.bits.remaining() as u64 {
+                return Err(ErrorKind::EndOfStream.into());
+            }
+
             let mut buffer = vec![0u8; len as usize];
             for i in 0..len as usize {
                 r.bits.read_bits_with_offset(&mut buffer[i..i + 1], 1)?;
@@ -1247,6 +1253,11 @@ impl<B: ScopedBitRead> Reader for UperReader<B> {
             } else {
                 r.read_length_determinant(C::MIN, C::MAX)?
             };
+
+            // every character takes at least one bit, do not allocate for more than there is
+            if len > r.bits.remaining() as u64 {
+                return Err(ErrorKind::EndOfStream.into());
+            }
 
             let mut buffer = vec![0u8; len as usize];
             for i in 0..len as usize {
@@ -1284,6 +1295,11 @@ impl<B: ScopedBitRead> Reader for UperReader<B> {
                 r.read_length_determinant(C::MIN, C::MAX)?
             };
 
+            // every character takes at least one bit, do not allocate for more than there is
+            if len > r.bits.remaining() as u64 {
+                return Err(ErrorKind::EndOfStream.into());
+            }
+
             let mut buffer = vec![0u8; len as usize];
             buffer
                 .chunks_exact_mut(1)
@@ -1313,6 +1329,11 @@ impl<B: ScopedBitRead> Reader for UperReader<B> {
             } else {
                 r.read_length_determinant(C::MIN, C::MAX)?
             };
+
+            // every character takes at least one bit, do not allocate for more than there is
+            if len > r.bits.remaining() as u64 {
+                return Err(ErrorKind::EndOfStream.into());
+            }
 
             let mut buffer = vec![0u8; len as usize];
             buffer
